@@ -2,6 +2,7 @@ package rules
 
 import (
 	"fmt"
+	"os"
 	"math/bits"
 	"sort"
 	"strings"
@@ -279,7 +280,7 @@ func eqAbs(a, b AbsVal) bool {
 	case vByte:
 		return a.set == b.set && a.linked == b.linked && (!a.linked || a.coord == b.coord)
 	case vMark:
-		return a.mlo == b.mlo && a.mhi == b.mhi && a.dlo == b.dlo && a.dhi == b.dhi && a.epoch == b.epoch && a.fresh == b.fresh && a.snap == b.snap && a.snapOff == b.snapOff && a.dec == b.dec
+		return a.mlo == b.mlo && a.mhi == b.mhi && a.dlo == b.dlo && a.dhi == b.dhi && a.epoch == b.epoch && a.fresh == b.fresh && a.snap == b.snap && a.snapOff == b.snapOff
 	case vRuneLen:
 		return a.fresh == b.fresh && a.runeOK == b.runeOK
 	case vAtomLen:
@@ -369,18 +370,10 @@ func joinAbs(a, b AbsVal, wl int) AbsVal {
 			if out.dec > 10 {
 				// threshold widening: 0, then -inf
 				if out.mlo < a.mlo {
-					if out.mlo >= 0 {
-						out.mlo = 0
-					} else {
-						out.mlo = -inf
-					}
+					out.mlo = lowerThreshold(out.mlo)
 				}
 				if out.dlo < a.dlo {
-					if out.dlo >= 0 {
-						out.dlo = 0
-					} else {
-						out.dlo = -inf
-					}
+					out.dlo = lowerThreshold(out.dlo)
 				}
 			}
 		}
@@ -410,6 +403,19 @@ func joinAbs(a, b AbsVal, wl int) AbsVal {
 		}
 	}
 	return top
+}
+
+// lowerThreshold widens a decreasing lower bound to the next of a few
+// thresholds that matter to the rules (token lengths 9, 4, 2, 1, 0).
+var joinDebug = os.Getenv("PCHECK_JOINDEBUG") != ""
+
+func lowerThreshold(v int) int {
+	for _, t := range []int{9, 4, 2, 1, 0} {
+		if v >= t {
+			return t
+		}
+	}
+	return -inf
 }
 
 func joinMarksAt(a, b map[ssa.Value]AbsVal) map[ssa.Value]AbsVal {
@@ -951,10 +957,7 @@ func (s *State) joinInto(o *State, wl int) bool {
 		nv := o.Lmin
 		s.decL++
 		if s.decL > 10 {
-			nv = -inf
-			if o.Lmin >= 0 {
-				nv = 0
-			}
+			nv = lowerThreshold(o.Lmin)
 		}
 		setInt(&s.Lmin, nv)
 	}
@@ -969,10 +972,7 @@ func (s *State) joinInto(o *State, wl int) bool {
 		nv := o.dispLo
 		s.decD++
 		if s.decD > 10 {
-			nv = -inf
-			if o.dispLo >= 0 {
-				nv = 0
-			}
+			nv = lowerThreshold(o.dispLo)
 		}
 		setInt(&s.dispLo, nv)
 	}
@@ -1077,6 +1077,9 @@ func (s *State) joinInto(o *State, wl int) bool {
 		}
 		j := joinAbs(av, ov, wl)
 		if !eqAbs(j, av) {
+			if joinDebug {
+				fmt.Fprintf(os.Stderr, "JOIN change val %s: %s + %s -> %s | dec %d %d %d off %d %d %d snap %p %p %p fresh %v %v %v\n", v.Name(), av, ov, j, av.dec, ov.dec, j.dec, av.snapOff, ov.snapOff, j.snapOff, av.snap, ov.snap, j.snap, av.fresh, ov.fresh, j.fresh)
+			}
 			if j.k == vTop {
 				delete(s.vals, v)
 			} else {
